@@ -5,7 +5,8 @@
    configuration (n_to_select form, threshold, full, warm_start), [inits] the initial selections
    of a cold start.  [state_ok] is the invariant of fitted states; C01_chain_invariant shows
    every fit re-establishes it, so all statements hold after ANY chain of cold/warm fits. *)
-From Verif Require Import ListX Greedy Select ListXP GreedyP SelectP C01Thm.
+From Verif Require Import ListX Greedy Select ListXP GreedyP SelectP C01Thm SelBuf SelBufP.
+From Coq Require Import PrimFloat.
 From Coq Require Import Sorting.Permutation Sorting.Sorted.
 
 Theorem C01_chain_invariant :
@@ -130,4 +131,165 @@ Proof.
   cbv zeta. split; [repeat constructor|]. split; [repeat constructor|].
   eexists. split; [vm_compute; reflexivity|]. split; [reflexivity|].
   eexists. split; vm_compute; reflexivity.
+Qed.
+
+(* ======================================================================================== *)
+(* Extension (round 3): the BUFFER-LEVEL model Model/SelBuf.v.  [bfit cand ycand prev c inits
+   str] is one call of fit on the object state [prev] as Python holds it: n_selected_ and the
+   selected_idx_/X_selected_/y_selected_ buffers with their capacity (np.zeros / np.pad / prefix
+   assignment with numpy broadcasting / indexed writes / the three truncations of the threshold
+   exit).  Out-of-range writes and the non-broadcastable prefix assignment are explicit
+   outcomes [BRaised EIndex/EValue]; [EOut] = the observed score stream does not fit the model.
+   The threshold test [bc_tst c] is ANY function of (first_score_, score): the exact integer
+   tests [tst_of_thr] and the binary64 tests on float scores [tst_fabs]/[tst_frel] (relative:
+   s / first < t with IEEE division) are instances.  [tr] is the trace of the loop of this
+   fit: (index, score, first_score_, kept?).  [sel_before] = the selections present before the
+   loop (initialisation of a cold start / the index buffer a warm start continues from). *)
+
+(* Every successful fit, for every threshold test, capacity and score stream: the selections
+   are distinct and in range, their number is n_selected_ and (without a stop) the size implied
+   by n_to_select, X_selected_ is the input sliced at ALL of them; selected_idx_ and y_selected_
+   are that sequence and y sliced at it, cut to the loop counter when the threshold stopped the
+   search (exact form of finding F2); every kept step passed the threshold test and a stop was
+   caused by a step that failed it. *)
+Theorem C01_buf_fit :
+  forall cand ycand prev c inits str k,
+    (bc_warm c = true -> bprev_ok cand ycand prev) ->
+    (bc_warm c = false -> NoDup inits /\ in_rng (length cand) inits) ->
+    resolve_n (length cand) (bc_nts c) = Some k ->
+    (length (sel_before prev c inits) <= k)%nat ->
+    forall b st tr, bfit cand ycand prev c inits str = BFitted b st tr ->
+      let s0 := sel_before prev c inits in
+      let s := s0 ++ kept_idx tr in
+      let cut := fun (A : Type) (l : list A) => if st then firstn (length s - length s0) l else l in
+      NoDup s /\ in_rng (length cand) s /\ (length s <= k)%nat /\ (st = false -> length s = k) /\
+      b_n b = length s /\ b_x b = map (fun i => nth i cand []) s /\ b_idx b = cut _ s /\
+      b_y b = match ycand with
+              | Some y => Some (cut _ (map (fun i => nth i y []) s)) | None => None end /\
+      (forall below, bc_tst c = Some below ->
+         Forall (fun e => te_below below e = negb (te_kept e)) tr) /\
+      (st = true -> has_tst (bc_tst c) = true /\ exists e, In e tr /\ te_kept e = false).
+Proof. exact bfit_fitted. Qed.
+Print Assumptions C01_buf_fit.
+
+(* the buffer bookkeeping never overflows and the warm-start prefix assignment never fails:
+   inside the quantifier of C01 no IndexError / ValueError can come out of the search *)
+Theorem C01_buf_no_buffer_error :
+  forall cand ycand prev c inits str k,
+    (bc_warm c = true -> bprev_ok cand ycand prev) ->
+    (bc_warm c = false -> NoDup inits /\ in_rng (length cand) inits) ->
+    resolve_n (length cand) (bc_nts c) = Some k ->
+    (length (sel_before prev c inits) <= k)%nat ->
+    forall e, bfit cand ycand prev c inits str = BRaised e -> e = EOut.
+Proof. exact bfit_no_buffer_error. Qed.
+Print Assumptions C01_buf_no_buffer_error.
+
+(* chain invariant on the object state: the fitted object is consistent (index buffer of
+   length n_selected_, distinct, in range, X_selected_/y_selected_ = input sliced at it) after
+   every fit that was not stopped by the threshold — and ALSO after a threshold stop when no
+   selection preceded the loop (cold CUR / PCov-CUR); such a state may be warm-continued *)
+Theorem C01_buf_chain_invariant :
+  forall cand ycand prev c inits str k,
+    (bc_warm c = true -> bprev_ok cand ycand prev) ->
+    (bc_warm c = false -> NoDup inits /\ in_rng (length cand) inits) ->
+    resolve_n (length cand) (bc_nts c) = Some k ->
+    (length (sel_before prev c inits) <= k)%nat ->
+    forall b st tr, bfit cand ycand prev c inits str = BFitted b st tr ->
+      (st = false \/ sel_before prev c inits = []) ->
+      NoDup (b_idx b) /\ in_rng (length cand) (b_idx b) /\ b_n b = length (b_idx b) /\
+      b_x b = map (fun i => nth i cand []) (b_idx b) /\
+      b_y b = match ycand with
+              | Some y => Some (map (fun i => nth i y []) (b_idx b)) | None => None end.
+Proof. exact bfit_consistent. Qed.
+Print Assumptions C01_buf_chain_invariant.
+
+(* what is reported in every case (also after a stop that cut selections off): the index
+   buffer is distinct and in range, the targets are y sliced at exactly it, the leading part of
+   X_selected_ is X sliced at it, and its length is n_selected_ minus the selections that
+   preceded the loop of a stopped fit — the exact size of the F2 discrepancy *)
+Theorem C01_length_exact :
+  forall cand ycand prev c inits str k,
+    (bc_warm c = true -> bprev_ok cand ycand prev) ->
+    (bc_warm c = false -> NoDup inits /\ in_rng (length cand) inits) ->
+    resolve_n (length cand) (bc_nts c) = Some k ->
+    (length (sel_before prev c inits) <= k)%nat ->
+    forall b st tr, bfit cand ycand prev c inits str = BFitted b st tr ->
+      NoDup (b_idx b) /\ in_rng (length cand) (b_idx b) /\
+      b_y b = match ycand with
+              | Some y => Some (map (fun i => nth i y []) (b_idx b)) | None => None end /\
+      firstn (length (b_idx b)) (b_x b) = map (fun i => nth i cand []) (b_idx b) /\
+      length (b_idx b) = (b_n b - (if st then length (sel_before prev c inits) else O))%nat.
+Proof. exact bfit_reported. Qed.
+Print Assumptions C01_length_exact.
+
+Theorem C01_buf_rejections :
+  forall cand ycand prev c inits str,
+    (bc_full c = true /\ has_tst (bc_tst c) = true) \/ resolve_n (length cand) (bc_nts c) = None \/
+    (bc_warm c = true /\ (prev = None \/ exists b0, prev = Some b0 /\ b_n b0 = O)) ->
+    bfit cand ycand prev c inits str = BRejected.
+Proof. exact bfit_rejections. Qed.
+Print Assumptions C01_buf_rejections.
+
+(* a cold fit does not depend on what any earlier fit left in the object *)
+Theorem C01_cold_fit_forgets_history :
+  forall cand ycand prev prev' c inits str,
+    bc_warm c = false -> bfit cand ycand prev c inits str = bfit cand ycand prev' c inits str.
+Proof. exact bfit_cold_history. Qed.
+Print Assumptions C01_cold_fit_forgets_history.
+
+(* Consequences of finding F2 for a warm start after a stop that cut selections off, on the
+   faithful model (each replayed on the implementation by the check, all under the F2 key):
+   one kept step -> the 1-element index buffer is broadcast, duplicate index;
+   two kept steps -> the prefix assignment raises ValueError;
+   with targets -> the y buffer is padded too short, IndexError in the loop. *)
+Theorem C01_warm_after_stop_refuted :
+  f2_stage1 = BFitted f2_b1 true f2_tr1 /\ b_idx f2_b1 = [O] /\ b_n f2_b1 = 2%nat /\
+  f2_stage2 = BFitted f2_b2 false f2_tr2 /\ ~ NoDup (b_idx f2_b2).
+Proof. exact f2_warm_broadcast_duplicates. Qed.
+Print Assumptions C01_warm_after_stop_refuted.
+
+Theorem C01_warm_after_stop_value_error_refuted :
+  f2v_stage1 = BFitted f2v_b1 true f2v_tr1 /\
+  length (b_idx f2v_b1) = 2%nat /\ b_n f2v_b1 = 3%nat /\
+  bfit f2_cand None (Some f2v_b1) (mk_bcfg (NtsInt 4) None false true) [] [[0;0;0;2]]
+    = BRaised EValue.
+Proof. exact f2_warm_value_error. Qed.
+Print Assumptions C01_warm_after_stop_value_error_refuted.
+
+Theorem C01_warm_after_stop_index_error_refuted :
+  f2i_stage1 = BFitted f2i_b1 true f2i_tr1 /\
+  bfit f2_cand f2_y (Some f2i_b1) (mk_bcfg (NtsInt 4) None false true) []
+       [[0;9;0;2];[0;0;0;2]] = BRaised EIndex.
+Proof. exact f2_warm_index_error. Qed.
+Print Assumptions C01_warm_after_stop_index_error_refuted.
+
+(* non-vacuity: float scores (IEEE bit patterns of 0.5, 0.3, 0.1), RELATIVE threshold 0.5 on
+   binary64: 0.5/0.5 and 0.3/0.5 pass, 0.1/0.5 stops the search; no selection preceded the
+   loop, so the state is consistent and a warm start (no threshold) continues it *)
+Example C01_buf_nonvacuous :
+  let cand := [[1;0];[0;2];[3;3]] in
+  let y := Some [[7];[8];[9]] in
+  let h := 4602678819172646912 in let t := 4599075939470750515 in let o := 4591870180066957722 in
+  exists b1 tr1 b2 tr2,
+    bfit cand y None (mk_bcfg (NtsInt 3) (tst_frel 0.5%float) false false) []
+         [[h;t;o];[0;t;o];[0;0;o]] = BFitted b1 true tr1 /\
+    b_idx b1 = [0;1]%nat /\ b_n b1 = 2%nat /\ b_y b1 = Some [[7];[8]] /\
+    bprev_ok cand y (Some b1) /\
+    bfit cand y (Some b1) (mk_bcfg (NtsInt 3) None false true) [] [[0;0;o]]
+      = BFitted b2 false tr2 /\
+    b_idx b2 = [0;1;2]%nat /\ b_x b2 = [[1;0];[0;2];[3;3]].
+Proof.
+  cbv zeta.
+  exists (mk_bst 2 [0;1]%nat [[1;0];[0;2]] (Some [[7];[8]]) (Some 4602678819172646912) []).
+  exists [(0%nat, 4602678819172646912, 4602678819172646912, true);
+          (1%nat, 4599075939470750515, 4602678819172646912, true);
+          (2%nat, 4591870180066957722, 4602678819172646912, false)].
+  exists (mk_bst 3 [0;1;2]%nat [[1;0];[0;2];[3;3]] (Some [[7];[8];[9]]) (Some 4602678819172646912) []).
+  exists [(2%nat, 4591870180066957722, 0, true)].
+  split; [vm_compute; reflexivity|]. split; [reflexivity|]. split; [reflexivity|].
+  split; [reflexivity|]. split.
+  - unfold bprev_ok, BOk; cbn. repeat split; auto.
+    + repeat constructor; cbn; intuition lia.
+    + repeat constructor.
+  - split; [vm_compute; reflexivity|]. split; reflexivity.
 Qed.
